@@ -179,10 +179,25 @@ func PathsJail(args []string) {
 				}
 				os.WriteFile(filepath.Join(d, "victimfile"), []byte("precious data"), 0644)
 			}
+			// the process's temporary directory lies inside the observed area too
+			tmpd := filepath.Join(caseDir, "tmp")
+			os.MkdirAll(tmpd, 0755)
+			os.Setenv("TMPDIR", tmpd)
 			before := snapshotAround(caseDir, out)
 			val := pathText(r, v)
 			m, fileItem := hostileManifest(r.Field, val)
-			rerr, hung := runHostile(m, fileItem, out, r.NoRootDir, r.Resume)
+			beginPath := fileItem.RelPath
+			if r.Field == "begin" {
+				// benign manifest; the FileBegin record carries the listed file's key and size and this path
+				beginPath = val
+				if val == fileItem.RelPath {
+					beginPath = val + "2"
+				}
+			}
+			// every third case the sender also lists a file named like the resume-metadata directory, so that the
+			// directory cannot be created below the output directory
+			blockMeta := r.Resume && n%3 == 0
+			rerr, hung := runHostile(m, fileItem, beginPath, blockMeta, out, r.NoRootDir, r.Resume)
 			after := snapshotAround(caseDir, out)
 			diffs := diffSnap(before, after)
 			res.Behaviours++
@@ -231,6 +246,8 @@ func hostileManifest(field, val string) (manifest.Manifest, manifest.FileItem) {
 		file.RelPath = val
 	case "id":
 		file.ID = val
+	case "begin":
+		// nothing hostile in the manifest
 	}
 	m.Items = []manifest.FileItem{dir, file}
 	m.FileCount, m.FolderCount, m.TotalBytes = 1, 1, file.Size
@@ -238,7 +255,13 @@ func hostileManifest(field, val string) (manifest.Manifest, manifest.FileItem) {
 }
 
 // runHostile plays a sender that transmits m and a complete 8-byte file through raw records.
-func runHostile(m manifest.Manifest, file manifest.FileItem, out string, noRoot, resume bool) (error, bool) {
+func runHostile(m manifest.Manifest, file manifest.FileItem, beginPath string, blockMeta bool, out string, noRoot, resume bool) (error, bool) {
+	var blocker manifest.FileItem
+	if blockMeta {
+		blocker = manifest.FileItem{RelPath: ".thruflux_resumedata", Size: 0, ID: "00000000000000bb"}
+		m.Items = append([]manifest.FileItem{blocker}, m.Items...)
+		m.FileCount++
+	}
 	p := vnet.NewPair(vnet.Options{})
 	defer p.Shutdown()
 	done := make(chan error, 1)
@@ -258,11 +281,16 @@ func runHostile(m manifest.Manifest, file manifest.FileItem, out string, noRoot,
 	transfer.VerifWriteControlHeader(&hdr, m)
 	cs.Write(hdr.Bytes())
 	cs.Write(encode(transfer.DataStreams{Count: 1}))
+	if blockMeta {
+		bk := transfer.VerifFileKey(blocker)
+		cs.Write(encode(transfer.FileBegin{RelPath: blocker.RelPath, FileSize: 0, ChunkSize: 8, StreamID: bk, HashAlg: 1}))
+		cs.Write(encode(transfer.FileEnd{StreamID: bk}))
+	}
 	key := transfer.VerifFileKey(file)
 	// FileBegin written raw: the real encoder would refuse a hostile path
 	fb := []byte{transfer.VerifTypeFileBegin}
-	fb = append(fb, be16(len(file.RelPath))...)
-	fb = append(fb, file.RelPath...)
+	fb = append(fb, be16(len(beginPath))...)
+	fb = append(fb, beginPath...)
 	tailEnc := encode(transfer.FileBegin{RelPath: "x", FileSize: uint64(file.Size), ChunkSize: 8, StreamID: key, HashAlg: 1})
 	fb = append(fb, tailEnc[1+2+1:]...)
 	cs.Write(fb)
